@@ -13,6 +13,13 @@ and reverse members).  0, 1 and 2 statistics; children dropping a statistic (Exp
 with a statistic the parent does not track (AddStat); two parent statistics mapped onto one child statistic
 (MergeDuplicateStats, merge=True variants, ExpansionZeroMerge).
 
+Products beyond "atom x rest": SplitPrefix lists the non-atom factor (no maximum size, positive minimum size when its
+prefix is non-empty) in ANY position among 1 or 2 atoms, with identity maps or with local statistic names (a factor
+tracks only the statistics that do not vanish on it, atoms under duplicate names: maps that differ per child and drop
+parent statistics).  Unions whose child drops a statistic that a sibling has non-zero at the same size
+(ExpansionDropVanishing).  Single-child equivalences that rename statistics (RenameStats), so that equivalence paths
+compose non-identity name maps.  Extra start classes with prefixes of length 3 (two-atom fronts with a non-empty rest).
+
 The form enumeration (descriptors, build, bind, OracleRule) is shared with c10.
 """
 from __future__ import annotations
@@ -40,7 +47,11 @@ from harness import c01
 from harness.universe import (
     ALL_STRATEGIES,
     START_CLASSES,
+    Av,
+    ExpansionDropVanishing,
     ExpansionNotSingle,
+    RenameStats,
+    SplitPrefix,
     brute_count,
     brute_objects,
     brute_terms,
@@ -55,7 +66,39 @@ MAX_CHAINS_PER_CLASS = {"quick": 6, "thorough": 30}
 
 
 def strategies() -> List:
-    return ALL_STRATEGIES() + [ExpansionNotSingle()]
+    return ALL_STRATEGIES() + [
+        ExpansionNotSingle(),
+        ExpansionDropVanishing(),
+        RenameStats(),
+        SplitPrefix(pieces=1, rest_at=0),
+        SplitPrefix(pieces=1, rest_at=0, local_names=True),
+        SplitPrefix(pieces=1, rest_at=1, local_names=True),
+        SplitPrefix(pieces=2, rest_at=0),
+        SplitPrefix(pieces=2, rest_at=1),
+        SplitPrefix(pieces=2, rest_at=2, local_names=True),
+    ]
+
+
+# start classes added to those of the universe: prefixes of length 3 whose redundant front has 2 letters and whose
+# remaining class has a non-empty prefix (a product of two atoms and a factor of positive minimum size)
+EXTRA_STARTS = [
+    ("aab", ["bb"], "ab", ()),
+    ("bab", ["bb", "aa"], "ab", ("na",)),
+    ("bba", ["aa"], "ab", ("na", "nb")),
+    ("aab", ["ba", "bbb"], "ab", ("nb",)),
+    ("bab", ["bb"], "ab", ("nb", "nb2")),
+]
+
+
+def start_classes(tier: str, seed: int) -> List:
+    starts = list(START_CLASSES(tier, seed))
+    seen = set(starts)
+    for prefix, patts, alphabet, stats in EXTRA_STARTS:
+        c = Av(prefix, patts, alphabet, False, stats)
+        if c not in seen:
+            seen.add(c)
+            starts.append(c)
+    return starts
 
 
 REGISTRY = {repr(s): s for s in strategies()}
@@ -368,7 +411,7 @@ def dedupe(violations: List[dict], limit: int = 20) -> List[dict]:
 
 
 def run(tier: str, seed: int) -> dict:
-    starts = START_CLASSES(tier, seed)
+    starts = start_classes(tier, seed)
     fired: Counter = Counter()
     seen = set()
     kinds: Counter = Counter()
@@ -408,7 +451,10 @@ def run(tier: str, seed: int) -> dict:
     samples.append({"kinds": dict(kinds)})
     return {
         "bound": (
-            f"{len(starts)} start classes; per start the closure under {len(strategies())} strategies with prefix "
+            f"{len(starts)} start classes (those of the universe + {len(EXTRA_STARTS)} with a prefix of length 3); per "
+            f"start the closure under {len(strategies())} strategies (the universe's, ExpansionNotSingle, "
+            "ExpansionDropVanishing, RenameStats, SplitPrefix with pieces in {1, 2} x position of the non-atom factor "
+            "x identity / local statistic names) with prefix "
             f"length <= {MAX_PREFIX[tier]}, <= 2 statistics, <= {MAX_CLASSES_PER_START[tier]} classes "
             f"({n_classes} classes visited, with repetition); every applicable strategy; forms: rule, reverse per "
             "child, equivalence, equivalence-reverse, reverse-equivalence, paths of 2 and 3 "
